@@ -383,7 +383,7 @@ func (w *World) recordPanic(t *Task, r any) {
 	if ex, ok := r.(exitPanic); ok {
 		c.Exit = true
 		c.Value = ex.msg
-	} else if strings.HasPrefix(c.Value, "scripted crash") {
+	} else if strings.HasPrefix(c.Value, "scripted crash") || strings.HasPrefix(c.Value, "&{scripted crash") {
 		// a deliberate actor crash raised by a harness receiver that nobody
 		// recovered: the code under test failed to contain it
 	} else if strings.HasPrefix(origin, "verif/") || strings.HasPrefix(origin, "main.") {
